@@ -13,6 +13,8 @@ def grant_stream(case, rng):
     if case['proto'] in ('4', '4a'):
         return bytes([0, 90] + [rng.randrange(256) for _ in range(6)])
     m = 2 if case.get('user') is not None and rng.random() < 0.7 else 0
+    if case.get('user') is None and rng.random() < 0.15:
+        m = 2          # a proxy selecting a method the client never offered
     s = bytes([5, m]) + (b'\x01\x00' if m == 2 else b'')
     return s + b'\x05\x00\x00\x01' + bytes(6)
 
@@ -110,6 +112,12 @@ class C16(Prop):
         greet, auth, conn = sc.ref_request(case)
         s = bytes(case['stream'])
         want = [greet] + ([auth] if s[1] == 2 else []) + [conn]
+        if s[1] == 2 and user is None:
+            # user/password was not offered: nothing but the greeting may be sent, and the handshake must fail
+            if sent != [greet] or obs['res'] not in ('fail', 'proto'):
+                return ('the proxy selected user/password although it was not offered: the client went on '
+                        f"(sent {len(sent)} messages, outcome {obs['res']})")
+            return None
         if sent != want:
             return 'SOCKS5 exchange differs from RFC 1928/1929 (greeting, credentials iff selected, CONNECT)'
         return None
